@@ -23,7 +23,7 @@ fn apply_mods_sync(lc: &mut LdapConn, m: &crate::scenario::Mods) {
         lc.with_controls(v);
     }
     if let Some(t) = m.timeout_ms {
-        lc.with_timeout(Duration::from_millis(t));
+        lc.with_timeout(if t == u64::MAX { Duration::MAX } else { Duration::from_millis(t) });
     }
     if let Some(o) = &m.opts {
         let d = match o.deref {
